@@ -143,9 +143,14 @@ class SubstratePathElem:
             SubstratePathError: If path is a number bigger than 256-bit
         """
 
-        # Integer
-        if self.m_elem.isnumeric():
-            bit_len = int(self.m_elem).bit_length()
+        # Integer (only decimal digits, i.e. exactly the characters int() can convert:
+        # isnumeric() also admits superscripts, fractions, CJK numerals...)
+        if self.m_elem.isdecimal():
+            try:
+                bit_len = int(self.m_elem).bit_length()
+            except ValueError as ex:
+                # More digits than int() accepts: in any case bigger than 256-bit
+                raise SubstratePathError(f"Invalid integer path element ({self.m_elem})") from ex
 
             # Find the correct scale encoder
             scale_enc = None
